@@ -91,6 +91,12 @@ SPEC = [
          params=[("prev_stop", "Q"), ("t_slew", "Q")], ret="Q", opaque={"self.frames[i].t_stop": "prev_stop"}),
     dict(group="16", name="slew_time", file="setigen/cadence.py", cls="Cadence", func="slew_times", what="return-elt",
          params=[("next_start", "Q"), ("prev_stop", "Q")], ret="Q", opaque={"self.frames[i].t_start": "next_start", "self.frames[i - 1].t_stop": "prev_stop"}),
+    dict(group="18", name="insert_index", file="setigen/cadence.py", cls="OrderedCadence", func="insert", what="flow:i:order_label",     # index used for the label and list.insert
+         params=[("i", "Z"), ("n", "Z")], ret="Z", opaque={"len(self)": "n"}),
+    dict(group="18", name="setitem_index", file="setigen/cadence.py", cls="OrderedCadence", func="__setitem__", what="flow:i:raise",
+         params=[("i", "Z"), ("n", "Z")], ret="Z", opaque={"len(self)": "n"}),
+    dict(group="18", name="setitem_rejects", file="setigen/cadence.py", cls="OrderedCadence", func="__setitem__", what="raise-cond:i:1",
+         params=[("i", "Z"), ("n", "Z")], ret="B", opaque={"len(self)": "n"}),
     dict(group="17", name="dedrift_max_offset", file="setigen/dedrift.py", cls=None, func="dedrift", what="assign:max_offset",
          params=[("drift_rate", "Q"), ("tchans", "Z"), ("dt", "Q"), ("df", "Q")], ret="Z"),
     dict(group="17", name="dedrift_offset", file="setigen/dedrift.py", cls=None, func="dedrift", what="nth:offset:1",      # inside the loop over rows i
@@ -167,6 +173,31 @@ def pick(fn, what):
         if len(hits) < int(k):
             raise Untranslatable("only %d assignments to %s" % (len(hits), target))
         return hits[int(k) - 1].value
+    if kind == "flow":
+        # the value of one variable after the leading statements of the function: plain assignments `v = e` and guarded
+        # reassignments `if test: v = e` (no else) are folded into nested conditionals; statements that do not mention the
+        # variable as a target are skipped; the fold stops at the first statement matching the given stop text
+        var, stop = target.split(":", 1)
+        expr = ast.Name(id=var, ctx=ast.Load())
+        for st in fn.body:
+            if stop and stop in src(st):
+                break
+            if isinstance(st, ast.Assign) and any(src(t) == var for t in st.targets):
+                expr = _subst(st.value, var, expr)
+            elif isinstance(st, ast.If) and not st.orelse and all(isinstance(b, ast.Assign) and [src(t) for t in b.targets] == [var] for b in st.body) and len(st.body) == 1:
+                expr = ast.IfExp(test=_subst(st.test, var, expr), body=_subst(st.body[0].value, var, expr), orelse=expr)
+            elif any(isinstance(m, (ast.Assign, ast.AugAssign)) and any(src(t) == var for t in (m.targets if isinstance(m, ast.Assign) else [m.target])) for m in ast.walk(st)):
+                raise Untranslatable("%s is reassigned in a way the flow selector does not understand (line %d)" % (var, st.lineno))
+        return expr
+    if kind == "raise-cond":
+        # the test of the k-th top-level `if <test>: raise ...`, with the flow of <var> before it substituted
+        var, k = target.rsplit(":", 1)
+        hits = [st for st in fn.body if isinstance(st, ast.If) and len(st.body) == 1 and isinstance(st.body[0], ast.Raise)]
+        if len(hits) < int(k):
+            raise Untranslatable("only %d guarded raises" % len(hits))
+        st = hits[int(k) - 1]
+        before = pick(ast.FunctionDef(name=fn.name, args=fn.args, body=fn.body[:fn.body.index(st)], decorator_list=[], lineno=fn.lineno), "flow:%s:" % var)
+        return _subst(st.test, var, before)
     if kind == "aug":
         # the value of the k-th augmented assignment to the target (e.g. the increment added inside an `if`)
         target, k = target.rsplit(":", 1)
@@ -210,6 +241,19 @@ def pick(fn, what):
             raise Untranslatable("%d calls of %s" % (len(hits), target))
         return hits[0].args[0]
     raise Untranslatable("unknown selector %s" % what)
+
+
+class _Subst(ast.NodeTransformer):
+    def __init__(self, var, by):
+        self.var, self.by = var, by
+
+    def visit_Name(self, node):
+        return self.by if node.id == self.var else node
+
+
+def _subst(node, var, by):
+    import copy
+    return _Subst(var, by).visit(copy.deepcopy(node))
 
 
 def _chain_error(target):
@@ -285,6 +329,35 @@ class Tr(object):
                     return "(%s * %s)%%Z" % (a[0], a[0]), "Z"
                 return "(%s * %s)" % (a[0], a[0]), "Q"
             raise Untranslatable("operator %s on %s/%s" % (type(op).__name__, a[1], b[1]))
+        if isinstance(n, ast.IfExp):
+            t = self.tr(n.test)
+            if t[1] != "B":
+                raise Untranslatable("condition %s is not a comparison" % src(n.test))
+            a, b = self.tr(n.body), self.tr(n.orelse)
+            if a[1] == b[1]:
+                return "(if %s then %s else %s)" % (t[0], a[0], b[0]), a[1]
+            return "(if %s then %s else %s)" % (t[0], self.asq(a), self.asq(b)), "Q"
+        if isinstance(n, ast.Compare):
+            parts = []
+            left = self.tr(n.left)
+            for op, right in zip(n.ops, n.comparators):
+                r = self.tr(right)
+                if left[1] != "Z" or r[1] != "Z":
+                    raise Untranslatable("comparison of non-integers %s" % s)
+                sym = {"Lt": "(%s <? %s)%%Z", "LtE": "(%s <=? %s)%%Z", "Gt": "(%s >? %s)%%Z", "GtE": "(%s >=? %s)%%Z", "Eq": "(%s =? %s)%%Z"}.get(type(op).__name__)
+                if sym is None:
+                    raise Untranslatable("comparison operator %s" % type(op).__name__)
+                parts.append(sym % (left[0], r[0]))
+                left = r
+            txt = parts[0]
+            for p in parts[1:]:
+                txt = "(%s && %s)" % (txt, p)
+            return txt, "B"
+        if isinstance(n, ast.UnaryOp) and isinstance(n.op, ast.Not):
+            t = self.tr(n.operand)
+            if t[1] != "B":
+                raise Untranslatable("not of a non-boolean")
+            return "(negb %s)" % t[0], "B"
         if isinstance(n, ast.Call):
             f = src(n.func)
             if self.strip_call and f == self.strip_call and len(n.args) == 1:
@@ -329,7 +402,7 @@ def translate(repo):
     """-> ({group: text}, errors)"""
     head = ["(* GENERATED by tools/py2v.py from the current source tree -- do not edit.  One definition per whitelisted scalar",
             "   statement of the implementation; Proofs/K<group>.v relates each to the hand-written model. *)",
-            "From Coq Require Import ZArith QArith Qround Qabs Qminmax.",
+            "From Coq Require Import ZArith QArith Qround Qabs Qminmax Bool.",
             "From SV Require Import Base.Rounding.",
             "Local Open Scope Q_scope.", ""]
     outs = {}
@@ -351,7 +424,7 @@ def translate(repo):
                     raise Untranslatable("result is %s, expected %s" % (ty, e["ret"]))
             params = " ".join("(%s : %s)" % (p, t) for p, t in e["params"])
             out.append("(* %s :: %s%s.%s :: %s *)" % (e["file"], (e["cls"] + ".") if e["cls"] else "", e["func"], e["what"], src(node).replace("*)", "* )")))
-            out.append("Definition src_%s %s : %s := %s." % (e["name"], params, e["ret"], txt))
+            out.append("Definition src_%s %s : %s := %s." % (e["name"], params, {"B": "bool"}.get(e["ret"], e["ret"]), txt))
             out.append("")
         except (Untranslatable, OSError, SyntaxError) as ex:
             errors.append("%s (%s %s): %s" % (e["name"], e["file"], e["func"], ex))
